@@ -366,6 +366,13 @@ func (r *Run) jobMain(j *JobRec) int {
 		return r.jobFail(j, md, "errors", "unknown phase "+j.Phase)
 	}
 
+	// the files named in the arguments must still be readable when the job ends
+	n0 := len(j.MissingFiles)
+	r.checkArgFiles(j, args)
+	for i := n0; i < len(j.MissingFiles); i++ {
+		j.MissingFiles[i] = "AT-END:" + j.MissingFiles[i]
+	}
+
 	// --- completion (mrjob done/Complete) ---
 	j.finishing = true
 	if j.Monitor {
